@@ -462,6 +462,25 @@ CHECKS = {
         design_ref="DESIGN.md 5 C26",
         note=NOTE_COMMON + " Known finding C26-tilted-M-matrix: off the zone axis the two paths differ by ~1e-4 and sums deviate by up to 3e-4. Tolerance 5e-5 (double precision).",
     ),
+    "C28": dict(
+        text=("Ptycho.tla states the contracts: Fourier projection (amplitude = measured, phase kept, idempotent, zero error when the "
+              "measured amplitude is the wave's own), r-PIE update at the truth (object and probe unchanged, zero error), J explicit "
+              "positions -> J pixel positions whose pairwise offsets are the input offsets over the sampling (a rigid motion when a "
+              "rotation is given), and - as growth beyond the statement - raster scans, window indices and the step machine of the "
+              "reconstruction loop (every non-empty pattern exactly once per iteration, overlap -> Fourier -> update, correction "
+              "schedules). PtychoImpl.tla transcribes _calculate_scan_positions_in_pixels over exact rationals with rational rotations "
+              "(quarter turn, 3-4-5), _wrapped_indices_2D_window with half-to-even rounding, _prepare_functions_queue and the main loop "
+              "of reconstruct() with every visiting order; TLC checks each against Ptycho.tla (with MeshgridExplicit = TRUE, the pinned "
+              "code, it returns the two-position counterexample) and emits the cases. Conformance: every emitted position and window case "
+              "on the real functions (model prediction compared too), 960 projection cases over the _fourier_projection of all four "
+              "operator classes (6 variants x shapes x wave classes x amplitude classes x precision), a stratified sample of the 12288 "
+              "update-at-the-truth cases (truth built by an independent numpy forward model for integer positions), and real "
+              "reconstruct() runs whose step functions are wrapped by recorders; PtychoTrace.tla validates every observation and every "
+              "recorded run against the loop machine."),
+        technique="TLA+ model of position conversion, window indices, function queue and reconstruction loop checked by TLC against the property-level contracts; TLC-emitted cases replayed on the real operators; TLC trace validation of recorded reconstruct() runs",
+        design_ref="DESIGN.md 5 C28, 10.9",
+        note=NOTE_COMMON + " Numeric contracts are evaluated by numpy in complex128 and logged in parts per billion (tolerance 5e-5 single / 1e-7 double); alpha = 0 only with probes without small-modulus pixels; growth_* clauses (loop order, raster, window) are reported as model drift, never as violations.",
+    ),
 }
 
 NOT_APPLICABLE = {
